@@ -261,7 +261,7 @@ func (x *FnExec) applySpec(fr *frame, n *node, in ssa.Instruction, spec *FuncSpe
 		al0 := x.heapGet(pre, "$alloc", "(Array Ref Bool)")
 		x.heapHavoc(st, "$alloc")
 		al1 := x.heapGet(st, "$alloc", "(Array Ref Bool)")
-		x.q.assert(fmt.Sprintf("(forall ((|r?al| Ref)) (=> (select %s |r?al|) (select %s |r?al|)))", al0, al1))
+		x.q.assert(fmt.Sprintf("(forall ((|r?al| Ref)) (! (=> (select %s |r?al|) (select %s |r?al|)) :pattern ((select %s |r?al|))))", al0, al1, al0))
 	}
 	// results
 	res := x.havocVal(hint, resT, reach)
@@ -463,7 +463,7 @@ func (x *FnExec) builtin(fr *frame, n *node, in ssa.Instruction, b *ssa.Builtin,
 		} else {
 			srcElem = sel(sel(h, "(s_arr "+src.S+")"), x.arith("+", "(s_off "+src.S+")", x.arith("-", qi, "(s_off "+dst.S+")", I), I))
 		}
-		x.q.assert(fmt.Sprintf("(forall ((%s %s)) (= (select %s %s) (ite %s %s (select %s %s))))", qi, x.q.intSort(), narr, qi, inRange, srcElem, oldArr, qi))
+		x.q.assert(fmt.Sprintf("(forall ((%s %s)) (! (= (select %s %s) (ite %s %s (select %s %s))) :pattern ((select %s %s))))", qi, x.q.intSort(), narr, qi, inRange, srcElem, oldArr, qi, narr, qi))
 		x.heapSet(st, hn, hs, ite(eq("(s_arr "+dst.S+")", "nil"), h, sto(h, "(s_arr "+dst.S+")", narr)))
 		return Val{S: cnt, T: I}, nil
 	case "delete":
@@ -553,7 +553,7 @@ func (x *FnExec) appendOp(fr *frame, n *node, in ssa.Instruction, c *ssa.CallCom
 	if k, ok := x.constLen(c.Args[1]); ok && k <= 8 && !tIsStr {
 		cur := ite(fits, oldArr, narr)
 		// fresh array: copy of s's elements must be stated with a quantifier only if s may be non-empty
-		x.q.assert(implies(not(fits), fmt.Sprintf("(forall ((%s %s)) (=> %s (= (select %s %s) %s)))", qi, x.q.intSort(), inS, narr, qi, srcS)))
+		x.q.assert(implies(not(fits), fmt.Sprintf("(forall ((%s %s)) (! (=> %s (= (select %s %s) %s)) :pattern ((select %s %s))))", qi, x.q.intSort(), inS, narr, qi, srcS, narr, qi)))
 		res := cur
 		for j := int64(0); j < k; j++ {
 			pos := x.arith("+", x.arith("+", base, "(s_len "+s.S+")", I), x.q.intLit(j, nil), I)
@@ -585,7 +585,7 @@ func (x *FnExec) appendOp(fr *frame, n *node, in ssa.Instruction, c *ssa.CallCom
 		x.q.assert(implies(and(x.cmp("<=", "(s_len "+s.S+")", x.ilit(K), I), x.cmp("<=", tlen, x.ilit(K), I)), eq(narr, chain)))
 		x.q.note("append(s, t...) in bit-vector mode: contents modelled for up to 32+32 elements")
 	} else {
-		x.q.assert(fmt.Sprintf("(forall ((%s %s)) (= (select %s %s) (ite %s %s (ite %s %s (select %s %s)))))", qi, x.q.intSort(), narr, qi, inS, srcS, inT, srcT, ite(fits, oldArr, narr), qi))
+		x.q.assert(fmt.Sprintf("(forall ((%s %s)) (! (= (select %s %s) (ite %s %s (ite %s %s (select %s %s)))) :pattern ((select %s %s))))", qi, x.q.intSort(), narr, qi, inS, srcS, inT, srcT, ite(fits, oldArr, narr), qi, narr, qi))
 	}
 	target := x.q.define(hint+"_tgt", "Ref", ite(fits, "(s_arr "+s.S+")", r2))
 	x.heapSet(st, hn, hs, sto(h, target, narr))
